@@ -89,6 +89,13 @@ class State:
         if cond.op == 'not':
             k = self.known(cond.args[0])
             return None if k is None else (not k)
+        if cond.op.startswith('(_ is ') and len(cond.args) == 1:
+            # constructors of the Val datatype are disjoint: another tester already asserted of the same term decides this one
+            x = cond.args[0].smt()
+            for other in ('VNone', 'VInt', 'VBool', 'VBytes', 'VStr', 'VRef', 'VOpq'):
+                o = '(_ is %s)' % other
+                if o != cond.op and ('(%s %s)' % (o, x)) in self.pcset:
+                    return False
         return None
 
     # ---- store
